@@ -1188,6 +1188,53 @@ theorem set_then_get_order_free (d : Bool) (E E' : List (Nat × Nat)) (hp : E'.P
     show (if rel c'.directed c'.graph i j then V i j else 0) = _
     rw [hd', hg', rel_perm _ _ _ hp]
 
+/-- **where the assumption "edge ids follow the adjacency order" holds, and only there**: the
+graph object the adjacency setter builds (`Graph(n, nz_coords(A)).simplify()`) lists its edges
+as a sub-sequence of the row-major enumeration of the cells, so re-deriving the listing from
+the adjacency matrix gives the listing itself and values handed over in adjacency order land
+on the right edge ids.  For an adopted graph object (`FromIGraph` / `Load`) nothing of the
+kind holds (non-vacuity example below: `[(1, 2), (0, 1)]`); the code's per-edge loops do not
+need it (`set_link_attribute_per_edge`, `edge_order_irrelevant`). -/
+theorem setter_graph_adjacency_order (d : Bool) (N : Nat) (c : List (Nat × Nat))
+    (f : Nat × Nat → Rat) :
+    (graphEdges d N c).Sublist (pairs N N)
+    ∧ graphEdges d N (graphEdges d N c) = graphEdges d N c
+    ∧ (graphEdges d N (graphEdges d N c)).map f = (graphEdges d N c).map f :=
+  ⟨List.filter_sublist, graphEdges_idem d N c, by rw [graphEdges_idem]⟩
+
+/-- **`average_link_attribute(name)`** (`link_attribute(name).mean(axis=1)`, through the loop)
+of an object representing `σ`: node `i` gets the sum of the specified values over its links
+divided by `N`; an unspecified name raises `KeyError` as soon as there is a link -/
+theorem average_link_attribute_spec {x : NetA} {σ : AbsA} (h : ReprsA x σ) (a : String) :
+    match σ.V a with
+    | some V => avgLinkAttrA x a = some ((List.range x.core.N).map fun i =>
+        ((List.range x.core.N).map fun j => if σ.a i j then V i j else 0).sum / (x.core.N : Rat))
+    | none => x.core.graph ≠ [] → avgLinkAttrA x a = none := by
+  obtain ⟨_, _, ha⟩ := reprsA_observables h
+  have hb := ha a
+  cases hV : σ.V a with
+  | none =>
+    rw [hV] at hb
+    intro hne
+    show avgLinkAttrA x a = none
+    unfold avgLinkAttrA
+    rw [linkAttrLoopA_eq, hb.2 hne]
+    rfl
+  | some V =>
+    rw [hV] at hb
+    obtain ⟨f, hf, hfv⟩ := hb
+    show avgLinkAttrA x a = some _
+    unfold avgLinkAttrA
+    rw [linkAttrLoopA_eq, hf]
+    simp only [Option.map_some]
+    congr 1
+    apply List.map_congr_left
+    intro i hi
+    congr 2
+    apply List.map_congr_left
+    intro j hj
+    exact hfv i j (List.mem_range.1 hi) (List.mem_range.1 hj)
+
 /-! non-vacuity, round 3 -/
 
 /-- two attributes at once on the path-plus-isolated-node network; an undirected copy in the
